@@ -116,6 +116,79 @@ def _join(a, b):
     return UNK
 
 
+# ---- sort keys: a stable sort with a NON-INJECTIVE key leaves ties in the order of its input (for a set / view: container order)
+NON_INJECTIVE_METHODS = {'lower', 'upper', 'casefold', 'title', 'capitalize', 'swapcase', 'strip', 'lstrip', 'rstrip', 'split', 'rsplit', 'partition',
+                         'startswith', 'endswith', 'isupper', 'islower', 'isdigit', 'isalpha', 'count', 'find', 'index', 'replace', 'translate', 'encode',
+                         'removeprefix', 'removesuffix', 'zfill', 'center', 'ljust', 'rjust', 'expandtabs', 'format', 'join'}
+NON_INJECTIVE_FUNCS = {'len', 'hash', 'bool', 'type', 'abs', 'int', 'float', 'round', 'ord', 'min', 'max', 'sum', 'any', 'all', 'isinstance', 'id'}
+_CUR_TREE = [None]          # module AST of the function under analysis (to resolve a key given by name)
+
+
+def _body_class(body_nodes, param):
+    """key body over its parameter: identity -> injective; a known many-to-one operation on the name -> non-injective; else unknown"""
+    rets = [r for r in body_nodes]
+    if rets and all(isinstance(r, ast.Name) and r.id == param for r in rets):
+        return 'injective', 'identity'
+    for r in rets:
+        for n in ast.walk(r):
+            if isinstance(n, ast.Call) and isinstance(n.func, ast.Attribute) and n.func.attr in NON_INJECTIVE_METHODS:
+                return 'non-injective', 'the key applies .%s() (many names, one key)' % n.func.attr
+            if isinstance(n, ast.Call) and isinstance(n.func, ast.Name) and n.func.id in NON_INJECTIVE_FUNCS and n.func.id != 'isinstance':
+                return 'non-injective', 'the key applies %s() (many names, one key)' % n.func.id
+            if isinstance(n, ast.Subscript):
+                return 'non-injective', 'the key looks at a part of the name only (%s)' % src(n)
+        if isinstance(r, ast.Constant):
+            return 'non-injective', 'constant key'
+    return 'unknown', 'key body not recognised'
+
+
+def classify_key(e, tree=None):
+    """-> ('injective' | 'non-injective' | 'unknown', why) for the value of a key= argument"""
+    tree = tree if tree is not None else _CUR_TREE[0]
+    if e is None or (isinstance(e, ast.Constant) and e.value is None):
+        return 'injective', 'no key'
+    if isinstance(e, ast.Lambda):
+        if len(e.args.args) != 1 or e.args.vararg or e.args.kwarg or e.args.kwonlyargs:
+            return 'unknown', 'lambda signature'
+        return _body_class([e.body], e.args.args[0].arg)
+    if isinstance(e, ast.Attribute):
+        if e.attr in NON_INJECTIVE_METHODS and isinstance(e.value, ast.Name) and e.value.id in ('str', 'bytes'):
+            return 'non-injective', 'key %s (many names, one key)' % src(e)
+        return 'unknown', 'key %s' % src(e)
+    if isinstance(e, ast.Name):
+        if e.id in NON_INJECTIVE_FUNCS:
+            return 'non-injective', 'key %s (many names, one key)' % e.id
+        if tree is not None:
+            for n in tree.body:
+                if isinstance(n, ast.FunctionDef) and n.name == e.id:
+                    if len(n.args.args) != 1 or n.args.vararg or n.args.kwarg:
+                        return 'unknown', 'signature of %s' % e.id
+                    rets = [r.value for r in ast.walk(n) if isinstance(r, ast.Return) and r.value is not None]
+                    c, why = _body_class(rets, n.args.args[0].arg)
+                    return c, '%s: %s' % (e.id, why)
+                if isinstance(n, ast.Assign) and any(isinstance(t, ast.Name) and t.id == e.id for t in n.targets):
+                    c, why = classify_key(n.value, tree) if not isinstance(n.value, ast.Name) else ('unknown', 'alias')
+                    return c, '%s: %s' % (e.id, why)
+        return 'unknown', 'key %s is not defined at module level' % e.id
+    return 'unknown', 'key expression %s' % type(e).__name__
+
+
+def sort_call_class(c):
+    """a sorted(...) / <list>.sort(...) call -> (class, why); reverse= does not matter (the reverse of a total order is a total order)"""
+    kws = {}
+    for k in c.keywords:
+        if k.arg is None or k.arg not in ('key', 'reverse'):
+            return 'unknown', 'keyword %s' % k.arg
+        kws[k.arg] = k.value
+    return classify_key(kws.get('key'))
+
+
+def is_sort_call(c):
+    return isinstance(c, ast.Call) and ((isinstance(c.func, ast.Name) and c.func.id == 'sorted' and len(c.args) >= 1) or
+                                        (isinstance(c.func, ast.Attribute) and c.func.attr == 'sort'))
+
+
+
 ORDER_FREE_CONSUMERS = {'sorted', 'set', 'frozenset', 'len', 'any', 'all', 'min', 'max', 'sum'}
 ORDER_EXPOSING_CALLS = {'list', 'tuple', 'iter', 'next', 'enumerate', 'zip', 'reversed', 'map', 'filter'}
 
@@ -186,9 +259,15 @@ class OrderAnalysis:
         f = c.func
         if isinstance(f, ast.Name):
             if name == 'sorted':
-                if c.keywords or len(c.args) != 1:
-                    return UNK                      # key= / reverse=: not modelled
-                return ORD if self.kind(c.args[0]) in (ORD, UNORD, GRAPH) else UNK
+                if len(c.args) != 1:
+                    return UNK
+                k = self.kind(c.args[0])
+                cls = sort_call_class(c)[0]
+                if cls == 'injective':              # total order on distinct names: a function of the SET
+                    return ORD if k in (ORD, UNORD, GRAPH) else UNK
+                if cls == 'non-injective':          # stable sort: ties stay in input order - deterministic only for an ORDERED input
+                    return ORD if k == ORD else (UNORD if k in (UNORD, GRAPH) else UNK)
+                return ORD if k == ORD else UNK
             if name in ('list', 'tuple', 'reversed') and len(c.args) == 1 and not c.keywords:
                 k = self.kind(c.args[0])
                 return k if k in (ORD, UNORD) else (UNORD if k == GRAPH else UNK)
@@ -307,6 +386,19 @@ class OrderAnalysis:
                 add('no element is drawn from a set in container order', 'refuted', n, 'iterator over a set / view')
             elif isinstance(n, ast.Starred) and self.kind(n.value) in (UNORD, GRAPH, UNK):
                 add('no unpacking of a set / view', 'undecided', n, 'starred expression')
+        for n in ast.walk(self.fn):
+            if is_sort_call(n):
+                cls, why = sort_call_class(n)
+                arg = n.args[0] if isinstance(n.func, ast.Name) else n.func.value
+                k = self.kind(arg)
+                if cls == 'injective' or (cls == 'non-injective' and k == ORD and isinstance(n.func, ast.Name)):
+                    v = 'discharged'
+                elif cls == 'non-injective':
+                    v = 'refuted' if k in (UNORD, GRAPH) or not isinstance(n.func, ast.Name) else 'undecided'
+                else:
+                    v = 'undecided'
+                add('the sort key is INJECTIVE on node names (no key / identity): ties of a stable sort would expose the container order', v, n,
+                    '%s; sorted input is %s' % (why, k))
         for verdict, what, node in self.problems:
             out.append(('frame[order analysis applicable]', verdict, what))
         return out
@@ -314,7 +406,11 @@ class OrderAnalysis:
 
 def _is_sole_arg_of(n, fname):
     p = n._parent
-    return isinstance(p, ast.Call) and isinstance(p.func, ast.Name) and p.func.id == fname and len(p.args) == 1 and p.args[0] is n and not p.keywords
+    if not (isinstance(p, ast.Call) and isinstance(p.func, ast.Name) and p.func.id == fname and len(p.args) == 1 and p.args[0] is n):
+        return False
+    if fname == 'sorted' and p.keywords:
+        return sort_call_class(p)[0] == 'injective'
+    return not p.keywords
 
 
 def _membership_rhs(n):
@@ -328,6 +424,9 @@ def _exposed(n):
     while getattr(c, '_parent', None) is not None and not isinstance(c._parent, ast.stmt):
         p = c._parent
         if isinstance(p, ast.Call) and isinstance(p.func, ast.Name):
+            if p.func.id == 'sorted' and c in p.args and p.keywords:
+                cls = sort_call_class(p)[0]
+                return True if cls == 'non-injective' else (False if cls == 'injective' else None)
             if p.func.id in ORDER_FREE_CONSUMERS and c in p.args:
                 return False
             if p.func.id in ORDER_EXPOSING_CALLS and c in p.args:
@@ -493,11 +592,15 @@ class ReadsFrame(SynContract):
         if args and args[0] in ('cls', 'self'):
             args = args[1:]
         g = args[self.param]
+        _CUR_TREE[0] = instrument._parse(self.target.split('::')[0], repo)[1]
         an = OrderAnalysis(fn, g, self.ordered_callees)
         for kind, verdict, note in graph_uses(fn, g, self.allowed) + an.sites() + local_writes(fn, an, g):
             yield dict(kind=kind, verdict=verdict, note=note, witness=dict(function=self.target, note=note))
         # nested function definitions / lambdas could capture the graph: not modelled
         for n in ast.walk(fn):
+            if isinstance(n, ast.Lambda) and isinstance(n._parent, ast.keyword) and n._parent.arg == 'key' and is_sort_call(n._parent._parent) \
+                    and not any(isinstance(x, ast.Name) and x.id == g for x in ast.walk(n)):
+                continue            # a sort key (judged by the injectivity obligation) that does not capture the graph
             if n is not fn and isinstance(n, (ast.FunctionDef, ast.Lambda, ast.ClassDef, ast.Global, ast.Nonlocal)):
                 yield dict(kind='frame[no nested scopes]', verdict='undecided', note='line %d: %s' % (n.lineno, type(n).__name__))
 
@@ -509,6 +612,7 @@ class CacheFrame(SynContract):
 
     def obligations(self, repo):
         loc, fn = fn_ast(self.target, repo)
+        _CUR_TREE[0] = instrument._parse(self.target.split('::')[0], repo)[1]
         an = OrderAnalysis(fn, [a.arg for a in fn.args.args if a.arg not in ('cls', 'self')][0], ('nx_constant_topological_sort',))
         caches = [k for k, v in an.env.items() if v == CACHE]
         if len(caches) != 1:
@@ -939,7 +1043,8 @@ class NameOrder(SynContract):
         loc, fn = fn_ast(self.target, repo)
         # the sort key: sorted() without key= on the full names (else this analysis does not apply)
         sorts = [c for c in ast.walk(fn) if isinstance(c, ast.Call) and isinstance(c.func, ast.Name) and c.func.id == 'sorted']
-        plain = bool(sorts) and all(not c.keywords and len(c.args) == 1 for c in sorts)
+        _CUR_TREE[0] = instrument._parse(self.target.split('::')[0], repo)[1]
+        plain = bool(sorts) and all(len(c.args) == 1 and sort_call_class(c)[0] == 'injective' and not any(k.arg == 'reverse' for k in c.keywords) for c in sorts)
         yield dict(kind='frame[the sort key is the full node name under python str order (sorted() without key=)]',
                    verdict='discharged' if plain else 'undecided', note='%d sorted() call(s)' % len(sorts))
         if not plain:
